@@ -39,7 +39,9 @@ import (
 func init() { register("c18", runC18) }
 
 type subject struct {
-	name   string
+	reset     func() // optional: re-creates the shared objects at the start of every round
+	concFirst bool   // the first use of the (fresh) shared objects is concurrent
+	name      string
 	shared []any              // objects that must be left untouched (pointers, slices)
 	run    func(variant int) any // result; variant selects a task count where the API has one
 }
@@ -182,7 +184,25 @@ func bn254Subjects(r *Rng) []*subject {
 	for i := range in {
 		in[i].SetBigInt(r.Below(bn254fr.Modulus()))
 	}
-	subs = append(subs, &subject{name: "bn254.fft.FFT", shared: []any{in}, run: func(v int) any {
+	// a domain built without precomputed tables, used on the coset: its first use is concurrent
+	var ndom *bn254fft.Domain
+	nsub := &subject{name: "bn254.fft.noprecompute.coset", concFirst: true}
+	nsub.reset = func() {
+		ndom = bn254fft.NewDomain(1<<12, bn254fft.WithoutPrecompute())
+		nsub.shared = []any{in, ndom}
+	}
+	nsub.reset()
+	nsub.run = func(v int) any {
+		a := make([]bn254fr.Element, 1<<12)
+		for i := range a {
+			a[i] = in[i%len(in)]
+		}
+		ndom.FFT(a, bn254fft.DIT, bn254fft.OnCoset(), bn254fft.WithNbTasks([]int{1, 2, 8}[v%3]))
+		ndom.FFTInverse(a, bn254fft.DIF, bn254fft.OnCoset(), bn254fft.WithNbTasks([]int{4, 1, 16}[v%3]))
+		return a[:64]
+	}
+	subs = append(subs, nsub)
+	subs = append(subs, &subject{name: "bn254.fft.FFT", shared: []any{in, dom}, run: func(v int) any {
 		a := append([]bn254fr.Element{}, in...)
 		dom.FFT(a, bn254fft.DIF, bn254fft.WithNbTasks([]int{1, 2, 8}[v%3]))
 		dom.FFTInverse(a, bn254fft.DIT, bn254fft.OnCoset(), bn254fft.WithNbTasks([]int{4, 1, 16}[v%3]))
@@ -193,7 +213,7 @@ func bn254Subjects(r *Rng) []*subject {
 	for i := range kin {
 		kin[i].SetUint64(r.U64())
 	}
-	subs = append(subs, &subject{name: "koalabear.fft.FFT", shared: []any{kin}, run: func(v int) any {
+	subs = append(subs, &subject{name: "koalabear.fft.FFT", shared: []any{kin, kdom}, run: func(v int) any {
 		a := append([]kb.Element{}, kin...)
 		kdom.FFT(a, kbfft.DIF, kbfft.WithNbTasks([]int{1, 2, 8}[v%3]))
 		return a
@@ -347,7 +367,29 @@ func runC18(args []string) {
 		prev := runtime.GOMAXPROCS(pr)
 		before := make([][]string, len(subs))
 		for i, s := range subs {
+			if s.reset != nil {
+				s.reset()
+			}
 			before[i] = digests(s.shared)
+		}
+		// subjects whose very first use of fresh shared objects must be concurrent (lazy caches)
+		for _, s := range subs {
+			if !s.concFirst {
+				continue
+			}
+			fmt.Fprintln(os.Stderr, "PHASE", s.name)
+			n := 8
+			res := make([]string, n)
+			var wg sync.WaitGroup
+			for k := 0; k < n; k++ {
+				wg.Add(1)
+				go func(k int) {
+					defer wg.Done()
+					res[k] = safeRun(s, k)
+				}(k)
+			}
+			wg.Wait()
+			t.Emit(Ev{"op": "calls", "f": s.name, "mode": "conc-first", "n": n, "procs": pr, "res": res})
 		}
 		// sequential repetitions, interleaved with the other subjects
 		for rep := 0; rep < 3; rep++ {
